@@ -534,6 +534,11 @@ def run_case(st: Stats, case, bound):
                     files[f"src/{d}/{one.name}"] = text
                     continue
                 main, inc = to_include(text, ch.choose("include-spelling", len(INCLUDE_SPELLINGS)) if ch is not None else 0)
+                # a further include file that holds no statement at all (empty / comments only) changes nothing
+                nothing = ch.choose("include-of-nothing", 3) if ch is not None else 0
+                if nothing:
+                    main = main.replace("\ncontains", "\n  include 'nothing.inc'\ncontains", 1)
+                    files[f"src/{d}/nothing.inc"] = "" if nothing == 1 else "! only a comment\n\n! and another\n"
                 files[f"src/{d}/{one.name}"] = main
                 # both include files carry the same name; the second one lives beside its source or in the include directory
                 files[f"src/{d}/decls.inc" if (case[1] == "two-dirs" or d == "a") else "inc/decls.inc"] = inc
